@@ -4,8 +4,10 @@ package main
 // Both real schemes (core/encryption bls0chain.go, ed25519.go) and chaincore/client.
 
 import (
+	"bytes"
 	"context"
 	"encoding/hex"
+	"encoding/json"
 	"fmt"
 
 	"0chain.net/chaincore/client"
@@ -47,50 +49,187 @@ func runC47(o vh.Opts) {
 		rep.CaseInputs = append(rep.CaseInputs, in)
 	}
 
-	checkID := func(in c47Input, scheme, pk string) {
-		mi := in
-		b, err := hex.DecodeString(pk)
-		if err != nil {
-			panic(err)
+	// checkID: clients built through every construction path, for one key given in one accepted
+	// spelling; after each path the stored key must be the hashed key, stably.
+	checkID := func(in c47Input, scheme, pk string, sign func(hash string) string) {
+		ctx := context.Background()
+		fail := func(note string) {
+			mi := in
+			mi.Note = note
+			rep.Violate("C47:client-id-not-key-hash", note, mi)
 		}
-		want := encryption.Hash(b)
-		id1, err1 := client.GetIDFromPublicKey(pk)
-		c := client.NewClient(client.SignatureScheme(scheme))
-		err2 := c.SetPublicKey(pk)
-		bad := ""
-		switch {
-		case err1 != nil || id1 != want:
-			bad = "GetIDFromPublicKey"
-		case err2 != nil || c.ID != want:
-			bad = "Client.SetPublicKey"
-		case c.Validate(context.Background()) != nil:
-			bad = "Client.Validate rejects the genuine id"
-		case encryption.VerifyPublicKeyClientID(pk, want) != nil:
-			bad = "VerifyPublicKeyClientID rejects the genuine id"
-		}
-		if bad == "" {
-			// tampered id / key must be rejected
-			c2 := client.NewClient(client.SignatureScheme(scheme))
-			_ = c2.SetPublicKey(pk)
-			c2.ID = flipHexBit(want, in.rand().Intn(256))
-			if c2.Validate(context.Background()) == nil {
-				bad = "Client.Validate accepts an id that is not the key hash"
-			} else if encryption.VerifyPublicKeyClientID(pk, c2.ID) == nil {
-				bad = "VerifyPublicKeyClientID accepts an id that is not the key hash"
-			} else if encryption.VerifyPublicKeyClientID(flipHexBit(pk, in.rand().Intn(len(pk)*4)), want) == nil {
-				bad = "VerifyPublicKeyClientID accepts another key for the id"
+		consistent := func(c *client.Client) string {
+			dec, err := hex.DecodeString(c.PublicKey)
+			if err != nil {
+				return "stored PublicKey is not hex"
 			}
-			c3 := client.NewClient(client.SignatureScheme(scheme))
-			c3.ID = ""
-			if c3.Validate(context.Background()) == nil {
-				bad = "Client.Validate accepts an empty id"
+			want := encryption.Hash(dec)
+			id, err := client.GetIDFromPublicKey(c.PublicKey)
+			switch {
+			case c.ID != want:
+				return "ID != Hash(decode(stored PublicKey))"
+			case err != nil || id != c.ID:
+				return "GetIDFromPublicKey(stored PublicKey) != ID"
+			case encryption.VerifyPublicKeyClientID(c.PublicKey, c.ID) != nil:
+				return "VerifyPublicKeyClientID(stored PublicKey, ID) fails"
+			case !bytes.Equal(c.PublicKeyBytes, dec):
+				return "PublicKeyBytes != decode(stored PublicKey)"
+			case c.Validate(ctx) != nil:
+				return "Client.Validate rejects the client"
+			}
+			return ""
+		}
+		newC := func() *client.Client { return client.NewClient(client.SignatureScheme(scheme)) }
+		type path struct {
+			name string
+			mk   func() (*client.Client, error)
+		}
+		base := func() (*client.Client, error) { c := newC(); return c, c.SetPublicKey(pk) }
+		paths := []path{
+			{"NewClient+SetPublicKey", base},
+			{"Provider+SetPublicKey", func() (*client.Client, error) {
+				c := client.Provider().(*client.Client)
+				c.SetSignatureSchemeType(scheme)
+				return c, c.SetPublicKey(pk)
+			}},
+			{"PublicKey+ComputeProperties", func() (*client.Client, error) {
+				c := newC()
+				c.PublicKey = pk
+				return c, c.ComputeProperties()
+			}},
+			{"json-decode+ComputeProperties", func() (*client.Client, error) {
+				c := newC()
+				if err := json.Unmarshal([]byte(`{"id":"`+randHash(in.rand())+`","public_key":"`+pk+`"}`), c); err != nil {
+					return c, err
+				}
+				return c, c.ComputeProperties()
+			}},
+			{"json-round-trip", func() (*client.Client, error) {
+				src, err := base()
+				if err != nil {
+					return src, err
+				}
+				buf, err := json.Marshal(src)
+				if err != nil {
+					return src, err
+				}
+				c := newC()
+				if err := json.Unmarshal(buf, c); err != nil {
+					return c, err
+				}
+				return c, c.ComputeProperties()
+			}},
+			{"msgpack-round-trip", func() (*client.Client, error) {
+				src, err := base()
+				if err != nil {
+					return src, err
+				}
+				buf, err := src.MarshalMsg(nil)
+				if err != nil {
+					return src, err
+				}
+				c := newC()
+				if _, err := c.UnmarshalMsg(buf); err != nil {
+					return c, err
+				}
+				return c, c.ComputeProperties()
+			}},
+			{"Clone", func() (*client.Client, error) {
+				src, err := base()
+				return src.Clone(), err
+			}},
+			{"Copy", func() (*client.Client, error) {
+				src, err := base()
+				c := newC()
+				c.Copy(src)
+				return c, err
+			}},
+			{"SetPublicKey-twice", func() (*client.Client, error) {
+				c := newC()
+				_ = c.SetPublicKey(schemeKey(in.rand().Fork(), scheme).GetPublicKey())
+				return c, c.SetPublicKey(pk)
+			}},
+			{"SetPublicKey-then-bad-key-rollback", func() (*client.Client, error) {
+				c, err := base()
+				if c.SetPublicKey("zz-not-hex") == nil {
+					return c, fmt.Errorf("non-hex key accepted")
+				}
+				return c, err
+			}},
+			{"SetSignatureScheme", func() (*client.Client, error) {
+				ss, err := verifierFor(scheme, pk)
+				if err != nil {
+					return nil, err
+				}
+				c := newC()
+				return c, c.SetSignatureScheme(ss)
+			}},
+		}
+		h := randHash(in.rand())
+		sig := sign(h)
+		for _, p := range paths {
+			rep.Count("client-id-path-" + p.name)
+			var c *client.Client
+			var err error
+			if pn := safely(func() { c, err = p.mk() }); pn != "" || err != nil || c == nil {
+				fail(fmt.Sprintf("%s: construction failed for a valid %s key (%d hex chars): %v %s", p.name, scheme, len(pk), err, pn))
+				continue
+			}
+			if why := consistent(c); why != "" {
+				fail(fmt.Sprintf("%s (%s key, %d hex chars): %s", p.name, scheme, len(pk), why))
+				continue
+			}
+			id0, pk0 := c.ID, c.PublicKey
+			// verification through the client (decodes the key lazily when needed) must work and keep the id
+			if ok, err := c.Verify(sig, h); err != nil || !ok {
+				fail(fmt.Sprintf("%s (%s key, %d hex chars): Client.Verify rejects the genuine signature: %v", p.name, scheme, len(pk), err))
+				continue
+			}
+			if why := consistent(c); why != "" || c.ID != id0 {
+				fail(fmt.Sprintf("%s (%s key, %d hex chars): after Client.Verify: %s (id changed: %v)", p.name, scheme, len(pk), why, c.ID != id0))
+				continue
+			}
+			// stability under Clone and encode/decode
+			cl := c.Clone()
+			var viaJSON, viaMsgp client.Client
+			viaJSON.SetSignatureSchemeType(scheme)
+			viaMsgp.SetSignatureSchemeType(scheme)
+			jb, _ := json.Marshal(c)
+			mb, _ := c.MarshalMsg(nil)
+			e1 := json.Unmarshal(jb, &viaJSON)
+			if e1 == nil {
+				e1 = viaJSON.ComputeProperties()
+			}
+			_, e2 := viaMsgp.UnmarshalMsg(mb)
+			if e2 == nil {
+				e2 = viaMsgp.ComputeProperties()
+			}
+			switch {
+			case cl.ID != c.ID || cl.PublicKey != c.PublicKey || consistent(cl) != "":
+				fail(fmt.Sprintf("%s (%s key, %d hex chars): Clone() gives id %s key %d chars, original id %s", p.name, scheme, len(pk), cl.ID, len(cl.PublicKey), c.ID))
+			case e1 != nil || viaJSON.ID != c.ID || viaJSON.PublicKey != c.PublicKey:
+				fail(fmt.Sprintf("%s (%s key, %d hex chars): JSON round trip + ComputeProperties changes the id or key (%v)", p.name, scheme, len(pk), e1))
+			case e2 != nil || viaMsgp.ID != c.ID || viaMsgp.PublicKey != c.PublicKey:
+				fail(fmt.Sprintf("%s (%s key, %d hex chars): msgpack round trip + ComputeProperties changes the id or key (%v)", p.name, scheme, len(pk), e2))
+			case c.PublicKey != pk0:
+				fail(fmt.Sprintf("%s: stored key changed", p.name))
+			}
+			// a tampered id / key must be rejected
+			c2 := c.Clone()
+			c2.ID = flipHexBit(c.ID, in.rand().Intn(256))
+			if c2.Validate(ctx) == nil {
+				fail(p.name + ": Client.Validate accepts an id that is not the key hash")
+			} else if encryption.VerifyPublicKeyClientID(c.PublicKey, c2.ID) == nil {
+				fail(p.name + ": VerifyPublicKeyClientID accepts an id that is not the key hash")
+			} else if encryption.VerifyPublicKeyClientID(flipHexBit(c.PublicKey, in.rand().Intn(len(c.PublicKey)*4)), c.ID) == nil {
+				fail(p.name + ": VerifyPublicKeyClientID accepts another key for the id")
 			}
 		}
-		rep.Count("client-id-checks")
-		if bad != "" {
-			mi.Note = bad
-			rep.Violate("C47:client-id-not-key-hash", bad, mi)
+		c3 := newC()
+		if c3.Validate(ctx) == nil {
+			fail("Client.Validate accepts an empty id")
 		}
+		rep.Count(fmt.Sprintf("client-id-spelling-%s-%d-hex-chars", scheme, len(pk)))
 	}
 
 	handleBLS := func(in c47Input, toCoq bool) {
@@ -202,7 +341,16 @@ func runC47(o vh.Opts) {
 				rep.Violate("C47:malformed-signature-accepted", "bls0chain accepts a malformed signature "+bad, mi)
 			}
 		}
-		checkID(in, encryption.SignatureSchemeBls0chain, pub)
+		signer0 := w.signer(0)
+		signBLS := func(h string) string { sg, _ := signer0.Sign(h); return sg }
+		checkID(in, encryption.SignatureSchemeBls0chain, pub, signBLS)
+		// the same key in the long MIRACL wallet spelling (converted by MiraclToHerumiPK)
+		mpk := miraclPK(pub)
+		if len(mpk) != 258 || encryption.MiraclToHerumiPK(mpk) != pub {
+			rep.Violate("C47:model-shape:miracl-key", "the MIRACL spelling built by the engine does not convert back to the herumi key", in)
+		} else {
+			checkID(in, encryption.SignatureSchemeBls0chain, mpk, signBLS)
+		}
 		rep.Case(fmt.Sprintf("%d/bls/%d", in.Seed, in.Index), genuineOK && rejected >= 3, in)
 	}
 
@@ -262,7 +410,7 @@ func runC47(o vh.Opts) {
 				rep.Violate("C47:malformed-signature-accepted", "ed25519 accepts a malformed signature", mi)
 			}
 		}
-		checkID(in, encryption.SignatureSchemeEd25519, k0.GetPublicKey())
+		checkID(in, encryption.SignatureSchemeEd25519, k0.GetPublicKey(), func(h string) string { sg, _ := k0.Sign(h); return sg })
 		rep.Case(fmt.Sprintf("%d/ed/%d", in.Seed, in.Index), genuineOK && rejected >= 3, in)
 	}
 
